@@ -90,6 +90,7 @@ type wireOp struct {
 	inexpressible bool
 	why           string // what it asks for, if not a custom payload
 	release       bool   // Query.Release() when the operation is over
+	skipMask      int    // bit i set: column i is skipped by the Scan consumers (nil destinations)
 	// batchBind: the entries of the batch are added with Batch.Bind (values come from a
 	// binding callback); batchBindNamed: the callback returns named values, which a BATCH
 	// cannot carry (protocol 3+): the request must be refused, nothing may be sent
@@ -713,6 +714,12 @@ func wireGenOp(k *kernel.Kernel, token string, proto int) *wireOp {
 		}
 	}
 	op.consumer = tp.Next(4)
+	if tp.Chance(1, 4) {
+		// Scan / Scanner.Scan with nil destinations: the caller skips those columns (a tuple
+		// column owns one destination per element, all nil then); the others must still
+		// receive their own cells
+		op.skipMask = 1 + tp.Next(1<<12-1)
+	}
 	op.resp = wireGenResp(k, op, proto)
 	return op
 }
@@ -1360,12 +1367,15 @@ func wireCheckRows(k *kernel.Kernel, op *wireOp, iter *gocql.Iter, proto int) {
 				k.Violate("C04", "C04/unexpected-error", "%s: RowData failed: %v", op.token, err)
 				return
 			}
+			skipped := wireSkipDests(k, op, r.cols, rd.Values)
 			if !iter.Scan(rd.Values...) {
 				break
 			}
 			m := map[string]interface{}{}
 			for i, c := range rd.Columns {
-				m[c] = reflect.Indirect(reflect.ValueOf(rd.Values[i])).Interface()
+				if !skipped[i] {
+					m[c] = reflect.Indirect(reflect.ValueOf(rd.Values[i])).Interface()
+				}
 			}
 			got = append(got, m)
 		}
@@ -1374,13 +1384,16 @@ func wireCheckRows(k *kernel.Kernel, op *wireOp, iter *gocql.Iter, proto int) {
 		sc := iter.Scanner()
 		for sc.Next() {
 			rd, _ := iter.RowData()
+			skipped := wireSkipDests(k, op, r.cols, rd.Values)
 			if err := sc.Scan(rd.Values...); err != nil {
 				k.Violate("C04", "C04/unexpected-error", "%s: Scanner.Scan failed on a well-formed result: %v", op.token, err)
 				return
 			}
 			m := map[string]interface{}{}
 			for i, c := range rd.Columns {
-				m[c] = reflect.Indirect(reflect.ValueOf(rd.Values[i])).Interface()
+				if !skipped[i] {
+					m[c] = reflect.Indirect(reflect.ValueOf(rd.Values[i])).Interface()
+				}
 			}
 			got = append(got, m)
 		}
@@ -1398,6 +1411,9 @@ func wireCheckRows(k *kernel.Kernel, op *wireOp, iter *gocql.Iter, proto int) {
 	}
 	for ri, row := range r.rows {
 		for ci, c := range r.cols {
+			if op.skipMask>>uint(ci%12)&1 == 1 && op.consumer >= 2 {
+				continue // skipped by the caller
+			}
 			cell := row[ci]
 			check := func(name string, t wType, want interface{}, null bool) {
 				g, ok := got[ri][name]
@@ -1598,4 +1614,31 @@ func (op *wireOp) whyText() string {
 		return op.why
 	}
 	return "a custom payload"
+}
+
+// wireSkipDests replaces the destinations of the columns the operation skips by nil (every
+// element destination of a tuple column) and reports which destinations those are.
+func wireSkipDests(k *kernel.Kernel, op *wireOp, cols []wireCol, dests []interface{}) []bool {
+	skipped := make([]bool, len(dests))
+	if op.skipMask == 0 {
+		return skipped
+	}
+	at := 0
+	for ci, c := range cols {
+		n := 1
+		if c.t.ID == cqlspec.TTuple {
+			n = len(c.t.Elems)
+		}
+		if op.skipMask>>uint(ci%12)&1 == 1 {
+			for j := at; j < at+n && j < len(dests); j++ {
+				dests[j] = nil
+				skipped[j] = true
+			}
+			if c.t.ID == cqlspec.TTuple {
+				k.Probe("tuple-column-skipped-with-nil-destinations")
+			}
+		}
+		at += n
+	}
+	return skipped
 }
